@@ -7,7 +7,7 @@ open BExpr
 inductive TAction where
   /-- every key of the data that is no alias of the class (and is not the discriminator) gets the `unexpected property` error -/
   | unexpected
-  /-- ... is copied into the values (TypedDict under additional_properties) -/
+  /-- ... is copied into the values unless it is the name of a declared field (TypedDict under additional_properties) -/
   | extras
   | unknown (src : String)
   deriving Repr
@@ -20,25 +20,25 @@ structure TailState where
   vals : List (String × Val)
   bad : Bool := false        -- a statement the interpreter does not know
 
-def runTAction (aliases : List String) (kvs : List (String × Py)) (st : TailState) : TAction → TailState
+def runTAction (names aliases : List String) (kvs : List (String × Py)) (st : TailState) : TAction → TailState
   | .unexpected => { st with errs := addUnexpected (unexpectedKeys aliases kvs) st.errs }
-  | .extras => { st with vals := st.vals ++ ((unexpectedKeys aliases kvs).filterMap (fun k => (lookupKey kvs k).map (fun v => (k, asVal v)))) }
+  | .extras => { st with vals := st.vals ++ extraVals names aliases kvs }
   | .unknown _ => { st with bad := true }
 
-def runTChain (tbl : List (String × Bool)) (aliases : List String) (kvs : List (String × Py)) (st : TailState) :
+def runTChain (tbl : List (String × Bool)) (names aliases : List String) (kvs : List (String × Py)) (st : TailState) :
     List (BExpr × TAction) → TailState
   | [] => st
-  | (g, a) :: rest => if evalT tbl g then runTAction aliases kvs st a else runTChain tbl aliases kvs st rest
+  | (g, a) :: rest => if evalT tbl g then runTAction names aliases kvs st a else runTChain tbl names aliases kvs st rest
 
 /-- `if self.aggregate_fields: … elif <outer>: <chain>` for a class without aggregate fields; `lenNeq` = `len(data) != fields_count` -/
-def tailSrcB (agg outer : BExpr) (chain : List (BExpr × TAction)) (ap td lenNeq : Bool) (aliases : List String) (kvs : List (String × Py))
+def tailSrcB (agg outer : BExpr) (chain : List (BExpr × TAction)) (ap td lenNeq : Bool) (names aliases : List String) (kvs : List (String × Py))
     (st : TailState) : TailState :=
   if evalT (tailTbl ap td lenNeq) agg then { st with bad := true }
-  else if evalT (tailTbl ap td lenNeq) outer then runTChain (tailTbl ap td lenNeq) aliases kvs st chain
+  else if evalT (tailTbl ap td lenNeq) outer then runTChain (tailTbl ap td lenNeq) names aliases kvs st chain
   else st
 
-def tailSrc (agg outer : BExpr) (chain : List (BExpr × TAction)) (ap td : Bool) (aliases : List String) (kvs : List (String × Py))
+def tailSrc (agg outer : BExpr) (chain : List (BExpr × TAction)) (ap td : Bool) (names aliases : List String) (kvs : List (String × Py))
     (count : Nat) (st : TailState) : TailState :=
-  tailSrcB agg outer chain ap td (kvs.length != count) aliases kvs st
+  tailSrcB agg outer chain ap td (kvs.length != count) names aliases kvs st
 
 end Api
